@@ -232,8 +232,8 @@ def main(tier):
     rep = H.Report(PROP, tier)
     prog = H.get_program()
     rng = H.rng(PROP)
-    B = 1100 if tier == 'quick' else 4000
-    Kmax = 700 if tier == 'quick' else 5000
+    B = 2000 if tier == 'quick' else 6000
+    Kmax = 1500 if tier == 'quick' else 5000
     tasks = [{'kind': 'acc', 'which': w} for w in ('constructors', 'value_accessors', 'ref_view')]
     for b in range(0, B + 1):
         tasks.append({'kind': 'digits', 'b': b, 'via': ['digits', 'count', 'digits_neg', 'count_neg'][b % 4] if b > 64 else 'digits'})
@@ -243,14 +243,14 @@ def main(tier):
         tasks.append({'kind': 'pow10', 'k': k, 'fn': 'ten_to_the_uint' if k % 3 else 'ten_to_the'})
     for k in range(0, 20):
         tasks.append({'kind': 'pow10', 'k': k, 'fn': 'ten_to_the_u64'})
-    Dn = 6 if tier == 'quick' else 12
-    for tz in range(0, (8 if tier == 'quick' else 30) + 1):
+    Dn = 8 if tier == 'quick' else 12
+    for tz in range(0, (12 if tier == 'quick' else 30) + 1):
         tasks.append({'kind': 'normalized', 'D': Dn, 'tz': tz})
     for k in list(range(0, 46)) + [589, 590, 591] + ([1000, 5000] if tier == 'thorough' else []):
         tasks.append({'kind': 'extend', 'k': k})
     rep.required_labels = {'strips exactly the trailing zeros'}
     rep.bounds = {'digits(): bit lengths': '0..%d (every integer of each bit length, symbolic)' % B, 'ten_to_the*: k': '0..%d + 5 seeded' % Kmax,
-                  'normalized': 'D=%d significant digits x 0..%d trailing zeros' % (Dn, 8 if tier == 'quick' else 30), 'accessors': 'x unbounded, scale any i64'}
+                  'normalized': 'D=%d significant digits x 0..%d trailing zeros' % (Dn, 12 if tier == 'quick' else 30), 'accessors': 'x unbounded, scale any i64'}
     rep.assumptions = ['BigUint::bits() returns the bit length (num-bigint contract)', 'ten_to_the_uint is a closed function of k: it is executed on the MIR for each k (no symbolic input exists)']
     rep.outside = ['bit lengths above the bound']
     sys.stderr.write('[C18] %d tasks\n' % len(tasks))
